@@ -106,7 +106,8 @@ func judgeRoundTrip(c *hx.Ctx, g XZCfg, run XZRun, replay any) {
 		}
 		return m
 	}
-	r, err := xz.NewReader(bytes.NewReader(run.Sink))
+	// the smallest reader window the library accepts: the declared dictionary size then decides
+	r, err := xz.ReaderConfig{DictCap: 4096}.NewReader(bytes.NewReader(run.Sink))
 	if err != nil {
 		c.Violation(sig("reader-open"), fmt.Sprintf("xz.NewReader rejects the writer's output: %v", err), replay)
 		return
